@@ -263,7 +263,7 @@ func c15Scalar(s *schema.Node, stored string, got *jval, sc *c15Scenario, main s
 		if name != stored {
 			return fmt.Sprintf("expected identity %q, found %q", stored, got.s)
 		}
-	case "union":
+	case "union", "unione":
 		if !((got.kind == 'n' && numEq(got.s, stored)) || (got.kind == 's' && got.s == stored)) {
 			return fmt.Sprintf("expected union value %q, found %c %q", stored, got.kind, got.s)
 		}
@@ -446,7 +446,7 @@ func c15Gen(r *kit.Rng) *c15Scenario {
 	}
 	size := r.Intn(3) // swarm knob: documents must straddle multiples of the writer's 4096-byte buffer
 	s := schema.GenerateRich(r, "m", []int{30, 60, 90}[size]+r.Intn(20), r.Range(2, 6))
-	o := model.GenOpts{Nasty: true, MaxEntries: []int{2, 6, 12}[size], Density: []int{45, 75, 95}[size], KeyPool: 40}
+	o := model.GenOpts{Nasty: true, EmptyLL: true, MaxEntries: []int{2, 6, 12}[size], Density: []int{45, 75, 95}[size], KeyPool: 40}
 	t := model.Random(r, s, o.WithBudget([]int{60, 300, 700}[size]), 0)
 	sc := &c15Scenario{Schema: s, Tree: t, FailAt: -1,
 		Pretty: r.Chance(1, 2), EnumIds: r.Chance(1, 2), Qualify: r.Chance(1, 2), Insert: r.Chance(1, 2)}
